@@ -38,4 +38,25 @@ def Out.leaves : Out → List Nat
 /-- the children below the table in document order. -/
 def leaves (table : List Child) : List Nat := (table.flatMap Child.cells).flatten
 
+/-! `_remove_table_and_linearize_columns` (the helper of `split_table_to_columns`): the same table, laid out column by column. -/
+
+/-- the content of the captions, in order. -/
+def captionItems : List Child → List Nat
+  | [] => []
+  | .caption items :: rest => items ++ captionItems rest
+  | .row _ :: rest => captionItems rest
+
+/-- the rows (the cells of each with their children). -/
+def rowsOf : List Child → List (List (List Nat))
+  | [] => []
+  | .caption _ :: rest => rowsOf rest
+  | .row cells :: rest => cells :: rowsOf rest
+
+/-- column `c`, top to bottom. -/
+def columnOf (rows : List (List (List Nat))) (c : Nat) : List Nat := (rows.map fun r => r.getD c []).flatten
+
+/-- `_remove_table_and_linearize_columns`: the captions' content, then column after column. -/
+def linearize (numcols : Nat) (table : List Child) : List Nat :=
+  captionItems table ++ (List.range numcols).flatMap (columnOf (rowsOf table))
+
 end MwVerif.SingleCol
